@@ -117,6 +117,33 @@ func (x *inst) enabled() []string {
 					out = append(out, fmt.Sprintf("Revert:%d", i))
 				}
 			}
+		case "RevertO":
+			if !m.Open {
+				continue
+			}
+			for _, o := range m.Orphans {
+				if x.promised(o) {
+					out = append(out, "RevertO:"+o.Name)
+				}
+			}
+		case "RmO":
+			if !m.Open || m.Mode != "RW" {
+				continue
+			}
+			for _, o := range m.Orphans {
+				if m.leaf(o.Name) {
+					out = append(out, "RmO:"+o.Name)
+				}
+			}
+		case "MarkO":
+			if !m.Open || m.Mode != "RW" {
+				continue
+			}
+			for _, o := range m.Orphans {
+				if !o.Removed {
+					out = append(out, "MarkO:"+o.Name)
+				}
+			}
 		case "Clean":
 			if !m.Open || m.Mode != "RW" || m.Checkpoint == "" {
 				continue
@@ -533,7 +560,14 @@ func (x *inst) snapRevert() bool {
 	if m.Open {
 		// metadata on disk must be current: nothing to flush, every management op persists synchronously
 	}
-	for i, s := range m.Chain {
+	cands := append([]*Snap{}, m.Chain...)
+	for _, o := range m.Orphans {
+		// a retained user snapshot outside the chain is still promised: reverting to it reads its image
+		if x.cfg.has(x.cfg.Alphabet, "RevertO") {
+			cands = append(cands, o)
+		}
+	}
+	for i, s := range cands {
 		if !x.promised(s) {
 			continue
 		}
